@@ -8,6 +8,7 @@ P_UNITS = [PUnit("seq-option-linear-chain", S.CONTRACTS, S.REG),
            PUnit("file-reader-linear-chain", [S.LINEAR_NX], S.REG2),
            PUnit("metamolecule-constructor", MI.CONTRACTS, MI.REG),
            PUnit("termini-of-a-residue-graph", [S.TERMINAL_NODES], S.REG3),
+           PUnit("connect-records", [S.BLOCK_NODES, S.ADD_EDGES], S.REG4),
            LUnit("constructor-contract-is-init-postcondition", S.lemma_ctor_alias),
            LUnit("prefix-sum-monotone", S.lemma_ps_monotone)]
 
